@@ -4,5 +4,6 @@ CONSTANTS
   W = 2
   RND = 2
   Depth = 4
+VIEW View
 INVARIANTS OutputsAgree StateRefines DirAgrees
 CHECK_DEADLOCK FALSE
